@@ -496,9 +496,14 @@ def opaque_conditions(it, atoms, name):
 
 
 def r1_set_y_X(ctx, repo, k, fn):
-    for xtag, X in (("X=None", K(None)), ("X given", Arr("X", None, "frame"))):
+    # histories: first fit (nothing remembered yet) and re-fit of an already used forecaster (H1: everything fit
+    # establishes is re-established on every later call, whatever was remembered before)
+    scen = [("X=None", K(None), {"_cutoff": K(None), "_y": K(None)}),
+            ("X given", Arr("X", None, "frame"), {"_cutoff": K(None), "_y": K(None)}),
+            ("X=None,refit", K(None), {"_cutoff": Lin.sym("cutoff_of_previous_fit"), "_y": Arr("y_previous", None, "series")})]
+    for xtag, X, prior in scen:
         it = PInterp(repo, no_inline=("check_equal_time_index",))
-        me, _ = make_self(it, k, True, {"_cutoff": K(None), "_y": K(None)})
+        me, _ = make_self(it, k, True, prior)
         args = {"self": me, "y": Arr("y", None, "series"), "X": X}
         rets, raises, _ = irun(it, k.module, fn, args, k, k)
         cons = "%s._set_y_X[%s]" % (k.name, xtag)
@@ -508,6 +513,10 @@ def r1_set_y_X(ctx, repo, k, fn):
         if not rets:
             no_result(ctx, "R1", cons + ":cutoff", raises, "valid training data is rejected on every path", loc)
             continue
+        if not ys:
+            ctx.violation("R1", cons + ":stored-y", "the training series is not remembered on this history" + (
+                " (a forecaster that is fitted again keeps the data of its previous fit)" if "refit" in xtag else ""), loc)
+            continue
         if len(ys) != 1 or not isinstance(ys[0]["val"], Arr):
             ctx.undecided("R1", cons + ":stored-y", "stored training series not interpretable: %r" % ([e["val"] for e in ys],), loc)
             continue
@@ -516,7 +525,9 @@ def r1_set_y_X(ctx, repo, k, fn):
         want = Lin.sym("%s.index[-1]" % ys[0]["val"].name)
         if len(cs) != 1 or time_point(cs[0]["val"]) is None:
             if not cs:
-                ctx.violation("R1", cons + ":cutoff", "the cutoff is not set", loc)
+                ctx.violation("R1", cons + ":cutoff", "the cutoff is not set" + (
+                    ": a forecaster that is fitted again keeps the cutoff of its previous fit / update" if "refit" in xtag else ""), loc,
+                    witness={"history": "fit(y1); fit(y2)"} if "refit" in xtag else None)
             else:
                 ctx.undecided("R1", cons + ":cutoff", "cutoff value not interpretable: %r" % ([e["val"] for e in cs],), loc)
             continue
